@@ -66,7 +66,7 @@ type khook struct {
 }
 
 type kop struct {
-	Op   string // put delete ns-add ns-relabel ns-delete tick-snap close-watches expire-watches
+	Op   string // put delete ns-add ns-relabel ns-delete tick-snap close-watches expire-watches stall-watches
 	Ns   string
 	Name string
 	Lbl  map[string]string
@@ -182,7 +182,21 @@ func genKCase(rng interface{ IntN(int) int }, opts map[string]bool) *kcase {
 			case r < 18 && allowNs && !opts["no-dynamic-ns"]:
 				ops = append(ops, kop{Op: "ns-delete", Ns: []string{"dyn1", "dyn2"}[rng.IntN(2)]})
 			case r < 19 && opts["watch-faults"]:
-				ops = append(ops, kop{Op: []string{"close-watches", "expire-watches"}[rng.IntN(2)]})
+				if rng.IntN(3) == 0 {
+					// an outage: the watches deliver nothing while an object changes, then end with 410 Gone;
+					// the informers learn what happened from their relist (deletions as tombstones)
+					ops = append(ops, kop{Op: "stall-watches"})
+					for k := 0; k < 1+rng.IntN(2); k++ {
+						if rng.IntN(2) == 0 {
+							ops = append(ops, kop{Op: "delete", Ns: ns, Name: name})
+						} else {
+							ops = append(ops, kop{Op: "put", Ns: ns, Name: name, Lbl: lbl})
+						}
+					}
+					ops = append(ops, kop{Op: "expire-watches"})
+				} else {
+					ops = append(ops, kop{Op: []string{"close-watches", "expire-watches"}[rng.IntN(2)]})
+				}
 			default:
 				ops = append(ops, kop{Op: "put", Ns: ns, Name: name, Lbl: lbl})
 			}
@@ -325,11 +339,15 @@ func applyOps(vc *vlib.VCluster, ops []kop, phase string, rec *krecord, sys *vli
 				vc.DeleteNamespace(o.Ns)
 				rec.Trace = append(rec.Trace, fmt.Sprintf("[%s] namespace %s deleted with its objects", phase, o.Ns))
 			}
+		case "stall-watches":
+			vc.StallWatches(true)
+			rec.Trace = append(rec.Trace, fmt.Sprintf("[%s] watch outage begins: open watches deliver nothing", phase))
 		case "close-watches", "expire-watches":
 			var nw int
 			if o.Op == "close-watches" {
 				nw = vc.CloseWatches()
 			} else {
+				vc.StallWatches(false)
 				nw = vc.ExpireWatches()
 			}
 			for i := 0; i < 100 && vc.OpenWatches() < nw; i++ {
